@@ -4,18 +4,20 @@ import IceProofs.Sys2C20OutsQ
 # C20 on `Sys2` — which steps emit nominations
 
 The walk through the helpers of `step` is in `Sys2C20OutsQ` (`step_outs_t`: no event but `.renominate` emits a
-nomination value; `step_outs_f`: a started agent with a selected pair emits no USE-CANDIDATE request except through
-`.renominate`; `step_renominate_out`: the one request of a `.renominate` that is not refused).
+nomination value, except the nomination the automatic check logs in the same step; `step_outs_f`: a started agent with a
+selected pair emits no USE-CANDIDATE request except such a logged nomination, or through `.renominate`;
+`step_renominate_out`: the one request of a `.renominate` that is not refused).
 -/
 namespace IceProofs.C20S
 open IceModel.AgentCore IceProofs.Agent
 
-/-- A STUN message that carries a nomination value is emitted only by a `RenominateCandidate` that is not refused: it
-is a Binding request with USE-CANDIDATE, sent from the local address to the remote address of that nomination, the
-value is the (positive) value given.  Any state, any event. -/
+/-- A STUN message that carries a nomination value is a nomination this very step ISSUES — `RenominateCandidate` that is
+not refused, or the automatic check of a controlling agent inside a tick (`issuesOf`, the entries the step appends to the
+ghost log): it is a Binding request with USE-CANDIDATE, sent from the local address to the remote address of that
+nomination, and the value is positive.  Any state, any event. -/
 theorem step_out_nom (a : Agent) (e : Ev) (f t : Nat) (m : Msg) (v : Nat)
     (hm : Out.dgram f t m ∈ (step a e).2) (hn : m.nom = some v) :
-    m.cls = 0 ∧ m.useCand = true ∧ 0 < v ∧ issueOf a e = some (v, f, t) := by
+    m.cls = 0 ∧ m.useCand = true ∧ 0 < v ∧ (v, f, t) ∈ issuesOf a e := by
   by_cases hr : ∃ now la ri value, e = .renominate now la ri value
   · obtain ⟨now, la, ri, value, rfl⟩ := hr
     obtain ⟨h0, h1, h2, h3⟩ := step_renominate_out a now la ri value f t m hm
@@ -23,19 +25,28 @@ theorem step_out_nom (a : Agent) (e : Ev) (f t : Nat) (m : Msg) (v : Nat)
     by_cases hv : value > 0
     · rw [if_pos hv] at h2
       cases h2
-      exact ⟨h0, h1, hv, h3⟩
+      exact ⟨h0, h1, hv, by rw [issuesOf_renominate, h3]; simp⟩
     · rw [if_neg hv] at h2
       cases h2
-  · have h := (step_outs_t a e (fun now la ri v h => hr ⟨now, la, ri, v, h⟩)).mem hm
-    rw [h.1] at hn
-    cases hn
+  · have h := (step_outs_t a e (fun now la ri v h => hr ⟨now, la, ri, v, h⟩)).2.mem hm
+    rcases h with h | ⟨h0, h1, v', h2, h3⟩
+    · rw [h.1] at hn
+      cases hn
+    · rw [hn] at h3
+      by_cases hv : v' > 0
+      · rw [if_pos hv] at h3
+        cases h3
+        exact ⟨h0, h1, hv, h2⟩
+      · rw [if_neg hv] at h3
+        cases h3
 
-/-- An agent that has a selected pair emits no ordinary nomination (USE-CANDIDATE request without value), except
-through `RenominateCandidate` with value 0. -/
+/-- An agent that has a selected pair emits no ordinary nomination (USE-CANDIDATE request without value), except as a
+nomination it issues with value 0: `RenominateCandidate` with value 0, or the automatic check when the counter of its
+value generator wraps around to 0. -/
 theorem step_out_plainUC (a : Agent) (e : Ev) (hst : a.started = true) (hk : keeps e = true)
     (hsel : a.selected.isSome = true) (f t : Nat) (m : Msg)
     (hm : Out.dgram f t m ∈ (step a e).2) (hc : m.cls = 0) (hu : m.useCand = true) (hn : m.nom = none) :
-    issueOf a e = some (0, f, t) := by
+    (0, f, t) ∈ issuesOf a e := by
   by_cases hr : ∃ now la ri value, e = .renominate now la ri value
   · obtain ⟨now, la, ri, value, rfl⟩ := hr
     obtain ⟨_, _, h2, h3⟩ := step_renominate_out a now la ri value f t m hm
@@ -45,8 +56,15 @@ theorem step_out_plainUC (a : Agent) (e : Ev) (hst : a.started = true) (hk : kee
       cases h2
     · have : value = 0 := by omega
       subst this
-      exact h3
-  · have h := (step_outs_f a e hst hk hsel (fun now la ri v h => hr ⟨now, la, ri, v, h⟩)).mem hm
-    exact absurd (h.2 hc hu) (by simp)
+      rw [issuesOf_renominate, h3]; simp
+  · have h := (step_outs_f a e hst hk hsel (fun now la ri v h => hr ⟨now, la, ri, v, h⟩)).2.mem hm
+    rcases h with h | ⟨_, _, v', h2, h3⟩
+    · exact absurd (h.2 hc hu) (by simp)
+    · rw [hn] at h3
+      by_cases hv : v' > 0
+      · rw [if_pos hv] at h3; cases h3
+      · have : v' = 0 := by omega
+        subst this
+        exact h2
 
 end IceProofs.C20S
